@@ -1,5 +1,6 @@
 //! Factory-centred worlds and the reference registry shared by C16, C17 and C19.
 
+use cw_multi_test::Executor as _;
 use crate::engine::*;
 use crate::gen::{gen_rate_atomics, to_dec, E18};
 use crate::nat::n;
@@ -49,7 +50,7 @@ pub fn gen_factory_cfg(s: &mut Src, min_denoms: usize, max_denoms: usize, allow_
     let native_decimals: Vec<u8> = (0..nd).map(|_| if s.chance(1, 8) { 19 + s.below(237) as u8 } else { s.below(19) as u8 }).collect();
     let unregistered: Vec<usize> = if allow_unregistered { (0..nd).filter(|_| s.chance(1, 6)).collect() } else { vec![] };
     let token_decimals: Vec<u8> = (0..nt).map(|_| s.below(19) as u8).collect();
-    WorldCfg { native_decimals, token_decimals, pairs: vec![], n_actors: 2, n_bystanders: 0, initial_balance: 1 << 60, allowance: 0, denoms, unregistered, staged_decimals: vec![], router_allowance: 0, peer_allowance: false }
+    WorldCfg { native_decimals, token_decimals, pairs: vec![], n_actors: 2, n_bystanders: 0, initial_balance: 1 << 60, allowance: 0, denoms, unregistered, staged_decimals: vec![], router_allowance: 0, peer_allowance: false, separate_factory_admin: false }
 }
 
 pub fn key_of(a: &AssetInfo) -> String {
@@ -82,18 +83,25 @@ pub struct Registry {
 pub struct FactoryWorld {
     pub w: World,
     pub model: Registry,
+    /// address of a contract whose `TokenInfo` answer has no `decimals` field
+    pub odd: String,
 }
 
 impl FactoryWorld {
     pub fn build(cfg: &WorldCfg) -> FactoryWorld {
-        let w = World::build(cfg).unwrap_or_else(|e| panic!("factory world build failed (harness): {e}"));
+        let mut w = World::build(cfg).unwrap_or_else(|e| panic!("factory world build failed (harness): {e}"));
+        let odd = w
+            .app
+            .instantiate_contract(w.codes.odd, w.owner.clone(), &cosmwasm_std::Empty {}, &[], "odd", None)
+            .unwrap_or_else(|e| panic!("odd token instantiate failed (harness): {e:#}"))
+            .to_string();
         let mut model = Registry::default();
         for (i, d) in w.natives.iter().enumerate() {
             if !cfg.unregistered.contains(&i) {
                 model.denoms.insert(d.clone(), cfg.native_decimals[i]);
             }
         }
-        FactoryWorld { w, model }
+        FactoryWorld { w, model, odd }
     }
 
     /// the true decimals of an asset right now (None = not a valid pair asset)
@@ -111,6 +119,7 @@ impl FactoryWorld {
             v.push(AssetInfo::Token { contract_addr: self.w.actors[0].to_string() }); // a user, not a contract
             v.push(AssetInfo::Token { contract_addr: self.w.factory.to_string() });   // a contract that is not a cw20
             v.push(AssetInfo::Token { contract_addr: "contract777".to_string() });    // does not exist
+            v.push(AssetInfo::Token { contract_addr: self.odd.clone() });              // answers TokenInfo without `decimals`
             v.push(AssetInfo::NativeToken { denom: "nosuchdenom".to_string() });
             // unregistered denoms that merely LOOK like a registered one (bank denoms are case sensitive
             // and may carry any suffix): a different spelling is a different, unregistered denom
